@@ -117,7 +117,7 @@ func runC03(c *Ctx) {
 		c.RequireAnyGate("C03.1-unmarshal-gated", fn, []Gate{GErrNil("VerifyAcceptor()==nil", CalleeIs(va)), isRoot}, nil, sinks, "non-error return", nil, false)
 		// acceptor check precedes decoding the record's data
 		decode := p.Func(aclList + ":(*aclRecordBuilder).decodeAclData")
-		c.RequireGate("C03.1-unmarshal-gated", fn, GErrNil("VerifyAcceptor()==nil", CalleeIs(va)), CallSinks(fn, CalleeFn(decode), false), "decode of record data")
+		c.RequireGate("C03.1-unmarshal-gated", fn, GErrNil("VerifyAcceptor()==nil", CalleeIs(va)), CallSinksX(fn, CalleeFn(decode), false), "decode of record data")
 		// verifyRaw operands: (pubKey, rawRec decoded from rawIdRecord.Payload, rawIdRecord)
 		for _, cs := range CallSinks(fn, CalleeFn(verifyRaw), false) {
 			a := cs.(*ssa.Call).Call.Args
@@ -187,7 +187,7 @@ func runC03(c *Ctx) {
 			}
 			return false, false
 		})
-		c.RequireGate("C03.2-chain-extension", applyRecord, chain, CallSinks(applyRecord, CalleeFn(applyData), false), "call applyChangeData")
+		c.RequireGate("C03.2-chain-extension", applyRecord, chain, CallSinksX(applyRecord, CalleeFn(applyData), false), "call applyChangeData")
 		var stores []ssa.Instruction
 		for _, w := range FieldWrites([]*ssa.Function{applyRecord}, lastRec) {
 			stores = append(stores, w.Instr)
@@ -203,7 +203,7 @@ func runC03(c *Ctx) {
 			c.Check(ok, "C03.2-chain-extension", FuncName(w.Fn)+"|lastRecordId-writer", p.Pos(InstrPos(w.Instr)), "lastRecordId is advanced only by ApplyRecord / root application / Copy")
 		}
 		addRaw := p.Func(aclList + ":(*aclList).AddRawRecord")
-		c.RequireGate("C03.2-chain-extension", addRaw, mapOkGate(p.Field(aclList+":aclList.indexes"), false), CallSinks(addRaw, CalleeFn(applyRecord), false), "call ApplyRecord")
+		c.RequireGate("C03.2-chain-extension", addRaw, mapOkGate(p.Field(aclList+":aclList.indexes"), false), CallSinksX(addRaw, CalleeFn(applyRecord), false), "call ApplyRecord")
 	}
 
 	// ---- C03.3 apply on a copy, swap on success
